@@ -75,6 +75,7 @@ def run(repo, rep, tier):
     staged_args_rule(repo, rep)
     record_staged_is_read_only(repo, rep)
     staging_keywords_cannot_collide(repo, rep)
+    toyaml_returns_plain_values(repo, rep)
     from .c02 import operation_envelopes_agree
     operation_envelopes_agree(repo, rep, 'C19.R10', 'finally')
     ops = operations(repo)
@@ -834,3 +835,122 @@ def staging_keywords_cannot_collide(repo, rep):
                             % (kwname, risky, f.name, f.name, risky[0]))
     if n < 30:
         raise AnalysisError('C19.R13: only %d staging calls' % n)
+
+
+def _builtin_subclasses(repo, builtin):
+    """names of the classes of the pywbem package that derive from the
+    builtin type"""
+    out = set()
+    for c in repo.all_classes():
+        if not c.module.relpath.startswith('pywbem/') or \
+                '_vendor' in c.module.relpath:
+            continue
+        if any(builtin in k.base_exprs for k in c.mro()):
+            out.add(c.name)
+    return out
+
+
+def toyaml_returns_plain_values(repo, rep):
+    """C19.R14: what TestClientRecorder.toyaml() returns can be written by
+    the safe YAML dumper: None, bool, exact int / float / str, or lists /
+    dicts of such.  The safe dumper looks representers up by exact type, so
+    an instance of a pywbem class - a CIMDateTime built from a datetime
+    argument, or the argument itself when it is only known to be *a* str
+    (Char16 is a str subclass) - raises RepresenterError in record(): the
+    operation fails only because the recorder is enabled."""
+    from ..paths import return_paths
+    r14 = rep.rule('C19.R14', 'toyaml() returns only values the safe YAML '
+                   'dumper can represent')
+    rc = repo.cls(REC, 'TestClientRecorder')
+    f = rc.methods.get('toyaml')
+    if f is None:
+        raise AnalysisError('TestClientRecorder.toyaml vanished')
+    r14.functions.add(f.fq)
+    arg = [p_ for p_ in f.params if p_ != 'self'][0]
+    paths = return_paths(f, max_paths=3000, inline=False)
+    if not paths:
+        raise AnalysisError('toyaml: paths cannot be enumerated')
+    PLAIN_CALLS = ('int', 'float', 'str', 'bool', 'list', 'dict',
+                   'OrderedDict', 'self.toyaml')
+    judged = set()
+    for pth in paths:
+        v = pth.value
+        if v is None:
+            continue
+        key = id(pth.ret_stmt)
+        if key in judged:
+            continue
+        kind = None
+        detail = None
+        rv = v
+        if isinstance(rv, ast.Name) and rv.id != arg and rv.id in pth.env:
+            rv = pth.env[rv.id][0]
+        if isinstance(rv, ast.Constant):
+            kind = 'plain'
+        elif isinstance(rv, (ast.List, ast.Dict, ast.ListComp,
+                             ast.DictComp)):
+            kind = 'plain'
+        elif isinstance(rv, ast.Call):
+            d = dotted(rv.func) or ''
+            if d in PLAIN_CALLS or (isinstance(rv.func, ast.Attribute) and
+                                    rv.func.attr in ('decode', 'join',
+                                                     'format')):
+                kind = 'plain'
+            elif repo.find_class(d.split('.')[-1]) is not None:
+                kind = 'object'
+                detail = 'an instance of %s' % d
+        elif isinstance(rv, ast.Name) and rv.id == arg:
+            # the argument itself: which classes can it still be?
+            pos, neg = set(), set()
+            is_none = False
+            for t, pol in pth.facts:
+                if isinstance(t, ast.Call) and \
+                        dotted(t.func) == 'isinstance' and \
+                        norm(t.args[0]) == arg:
+                    ns = {norm(x) for x in (
+                        t.args[1].elts if isinstance(t.args[1], ast.Tuple)
+                        else [t.args[1]])}
+                    (pos if pol else neg).update(ns)
+                if isinstance(t, ast.Compare) and pol and \
+                        norm(t) == '%s is None' % arg:
+                    is_none = True
+            if is_none:
+                kind = 'plain'
+            else:
+                leak = set()
+                for b in pos & {'str', 'int', 'float', 'bytes'}:
+                    for cn in _builtin_subclasses(repo, b):
+                        c = repo.find_class(cn)
+                        excluded = any(
+                            k.name in neg for k in c.mro())
+                        if not excluded:
+                            leak.add(cn)
+                repo_pos = [n_ for n_ in pos
+                            if repo.find_class(n_) is not None]
+                if pos and not leak and not repo_pos:
+                    kind = 'plain'
+                elif leak or repo_pos:
+                    kind = 'object'
+                    detail = 'the argument itself, which can be an ' \
+                        'instance of %s' % sorted(leak or repo_pos)
+        judged.add(key)
+        r14.sites += 1
+        if kind is None:
+            r14.undecided.append('toyaml: return %s' % norm(v, 50))
+            continue
+        r14.ob(kind == 'plain', 'return %s @%s' % (
+            norm(v, 40), norm(pth.facts[-1][0], 40) if pth.facts else ''))
+        if kind != 'plain':
+            cond = next((norm(t, 60) for t, pol in reversed(pth.facts)
+                         if pol), '')
+            rep.finding(r14, f.qualname, 'if %s: return %s'
+                        % (cond, norm(v, 50)), 'not-yaml-plain', REC,
+                        getattr(pth.ret_stmt, 'lineno', f.node.lineno),
+                        'toyaml() returns %s: the safe YAML dumper has no '
+                        'representer for that type, record() raises '
+                        'RepresenterError and the operation fails only '
+                        'because the TestClientRecorder is enabled'
+                        % detail)
+    if r14.sites < 15:
+        raise AnalysisError('C19.R14: only %d return statements of toyaml '
+                            'judged' % r14.sites)
